@@ -128,6 +128,8 @@ def scenario_for(seed, index, tier):
                 h['types'] = []
     for i, h in enumerate(chain):
         h['id'] = i
+        if h['do'] == 'reconnect' and index >= len(en):
+            h['linger_us'] = rng.choice([0, 0, 100000, 5000000])
     gaps = [(0, 200000), (0, 20000), (20000, 20000), (1000, 0), (0, 0),
             (200000, 1000)]
     sc = {'proto': proto, 'origin': origin, 'state': state, 'exc0': exc0,
@@ -334,6 +336,9 @@ def execute(scenario, tape):
                     try:
                         conn.connect()
                         st['reconnected'] = True
+                        if h.get('linger_us'):
+                            # ... and stays in the handler for a while
+                            w.sleep(h['linger_us'])
                     except Exception as ne:
                         label(ne, 'H%d' % h['id'])
                         raise
